@@ -114,6 +114,10 @@ def extra(rng, tier):
                 if not ext:
                     q = min(max(q, xs[0]), xs[-1])
             i = lin_bracket(xs, q)
+            if S == "F" and rng.random() < 0.3:
+                # a non-finite sample in a *bracketing* row (kept in every variant): the result may be NaN / inf, but it must still not
+                # depend on any other row (seed C20-r7m1: an extrapolating Linear that walks inwards to the nearest all-finite interval)
+                flat[rng.choice([i, i + 1]) * L + rng.randrange(L)] = rng.choice([math.nan, math.inf, -math.inf])
             base = len(lines)
             lines.append(i1_line(S, xs, shape, flat, ("lin", ext), e_array(S, [1], [q]), xlay=lx, dlay=ld))
             var = []
@@ -138,6 +142,8 @@ def extra(rng, tier):
                 continue
             x, y = rng.choice(qx), rng.choice(qy)      # any cell of the grid, not only the first one
             i, j = lin_bracket(xs, x), lin_bracket(ys, y)
+            if S == "F" and L >= 1 and rng.random() < 0.3:
+                flat[(rng.choice([i, i + 1]) * ny + rng.choice([j, j + 1])) * L + rng.randrange(L)] = rng.choice([math.nan, math.inf, -math.inf])
             base = len(lines)
             lines.append(i2_line(S, xs, ys, shape, flat, ext, e_array(S, [1], [x], [y]), xlay=lx, ylay=ly, dlay=ld))
             var = []
